@@ -95,7 +95,7 @@ def run(chk):
              for sj in ["SMM", "Highest", "Lowest", "HighestIndex", "LowestIndex", "HighestLowestDelta"]]
     tokfam.emit_replay(chk, yv, "c10tok", tjobs, 6, False, False, lambda key: ":panic" in key or ":rejected" in key)
     # ... and on long random token streams (ties, plateaus, signed zeros, every length class): a caught panic is logged as the
-    # sentinel [-999]
+    # sentinel [-999] with "panic": true
     tf = os.path.join(wd, "tok_long.ndjson")
     run_harness(yv, ["tok-record", "sel", chk.seed * 100 + 9, 140 if quick else 560, 1500, tf], timeout=3000)
     cur = None
@@ -103,7 +103,7 @@ def run(chk):
     for l in open(tf):
         if '"new"' in l:
             cur = json.loads(l)
-        elif '[-999]' in l:
+        elif '"panic":true' in l:
             chk.finding("%s:next:panic" % cur["subject"], {"stage": "A:token-streams", "params": cur["params"], "trace": tf})
             break
         else:
